@@ -86,6 +86,36 @@ def _run_instance(key, params, budget_s, seed, conn):
     conn.close()
 
 
+def _run_native(key, params, budget_s, conn):
+    """one scenario instance on native floats (run-time checking of the contract; /venv/bin/python, untouched package)"""
+    t0 = time.time()
+    out = {'key': list(key), 'params': params, 'native': True, 'failures': [], 'labels': {}, 'paths': 1, 'decisions': 0,
+           'queries': 0, 'solver_s': 0.0, 'undecided': None, 'symbolic': False, 'skipped_paths': 0}
+    env = dict(os.environ)
+    env['VERIF_REPO'] = REPO
+    try:
+        r = subprocess.run([NATIVE_PY, os.path.join(ROOT, 'replay.py'), '--native', key[0], key[1], json.dumps(params)],
+                           capture_output=True, text=True, timeout=budget_s, env=env, cwd=ROOT)
+        txt = (r.stdout + r.stderr)[-3000:]
+        if r.returncode == 1 and 'REPRODUCED' in txt and 'REPLAY-ERROR' not in txt:
+            lab = 'native-run'
+            m = re.search(r"check '([^']+)' fails", txt)
+            if m:
+                lab = m.group(1)
+            out['failures'].append({'label': lab, 'detail': {'msg': 'run-time check on native floats failed: ' + txt[-600:], 'values': {},
+                                                              'native_only': True}})
+            out['labels'][lab] = [0, 1]
+        elif r.returncode in (0,):
+            out['labels']['native-run.all-checks'] = [1, 0]
+        else:
+            out['undecided'] = {'kind': 'undecided', 'why': 'native run could not be completed: ' + txt[-300:], 'tb': ''}
+    except subprocess.TimeoutExpired:
+        out['undecided'] = {'kind': 'undecided', 'why': 'native run timed out', 'tb': ''}
+    out['wall_s'] = time.time() - t0
+    conn.send(out)
+    conn.close()
+
+
 def _run_vc(task, budget_s, conn):
     t0 = time.time()
     try:
@@ -239,6 +269,14 @@ def run_property(prop, tier, seed, nproc=None, only=None, verbose=False):
     for k, params in binst:
         jobs.append((_run_instance, (k, params, budget, seed), budget))
         meta.append(('B', (k, params)))
+    n_native = 0
+    for k, s in scen:
+        for params in s.native_instances(tier):
+            p2 = dict(params)
+            p2['_native'] = True
+            jobs.append((_run_native, (k, params, budget), budget))
+            meta.append(('B', (k, p2)))
+            n_native += 1
 
     known = load_known()
 
@@ -310,6 +348,19 @@ def run_property(prop, tier, seed, nproc=None, only=None, verbose=False):
             if r is None:
                 B['undecided'].append(iname + ' (killed: over budget)')
                 continue
+            if r.get('native'):
+                # run-time check on native floats: a third, weaker kind of evidence, counted on its own
+                B['instances'] -= 1
+                sc['instances'] -= 1
+                B['native_runs'] = B.get('native_runs', 0) + 1
+                if r['undecided']:
+                    B['undecided'].append('%s (%s)' % (iname, r['undecided']['why']))
+                for f in r['failures']:
+                    refuted.append({'engine': 'B', 'name': '%s/%s' % (iname, f['label']), 'scen': sname, 'params': params,
+                                    'label': f['label'], 'detail': f['detail'], 'kind': 'contract'})
+                if not r['failures'] and not r['undecided']:
+                    B['native_passed'] = B.get('native_passed', 0) + 1
+                continue
             B['paths'] += r['paths']
             sc['paths'] += r['paths']
             B['solver_s'] += r['solver_s']
@@ -349,7 +400,8 @@ def run_property(prop, tier, seed, nproc=None, only=None, verbose=False):
             continue
         kf = match_known(known, prop, rf['scen'], rf['label'], rf['params'])
         payload = {'property': prop, 'obligation': rf['name'], 'engine': rf['engine'], 'scenario': rf['scen'],
-                   'params': rf['params'], 'label': rf['label'], 'detail': rf['detail'], 'repo': REPO}
+                   'params': {k_: v_ for k_, v_ in rf['params'].items() if k_ != '_native'}, 'label': rf['label'],
+                   'detail': rf['detail'], 'repo': REPO}
         if kf is not None:
             if kf['id'] not in seen_known:
                 seen_known.add(kf['id'])
@@ -449,7 +501,10 @@ def write_evidence(prop, tier, seed, A, B, violations, known_hits, n_und, crashe
                              'instances': B['instances'], 'paths': B['paths'], 'obligations': B['obligations'],
                              'proved_on_every_path': B['proved'], 'solver_queries': B['queries'],
                              'solver_s': round(B['solver_s'], 2), 'undecided': B['undecided'][:50],
-                             'scenarios': B['scenarios']},
+                             'scenarios': B['scenarios'],
+                             'native_float_runs': {'label': 'run-time checking of the same contracts on native floats (defects that only '
+                                                   'exist in floating point, outside A1); testing-grade, never counted as proved',
+                                                   'runs': B.get('native_runs', 0), 'passed': B.get('native_passed', 0)}},
         'evaluations': B['paths'],
         'distinct_nontrivial': B['symbolic_instances'],
         'rule': 'one case = one (scenario, shape parameters) instance explored over all feasible paths; non-trivial = the '
